@@ -93,7 +93,21 @@ pub struct Ent {
 
 #[derive(Clone, Debug, PartialEq, Eq, PartialOrd, Ord, Hash, Default, serde::Serialize, serde::Deserialize)]
 pub struct Store {
+    #[serde(with = "as_pairs")]
     pub ents: BTreeMap<Uid, Ent>,
+}
+
+/// JSON maps need string keys: (de)serialise the store as a list of pairs
+mod as_pairs {
+    use super::{Ent, Uid};
+    use serde::{Deserialize, Deserializer, Serialize, Serializer};
+    use std::collections::BTreeMap;
+    pub fn serialize<S: Serializer>(m: &BTreeMap<Uid, Ent>, s: S) -> Result<S::Ok, S::Error> {
+        m.iter().collect::<Vec<_>>().serialize(s)
+    }
+    pub fn deserialize<'de, D: Deserializer<'de>>(d: D) -> Result<BTreeMap<Uid, Ent>, D::Error> {
+        Ok(Vec::<(Uid, Ent)>::deserialize(d)?.into_iter().collect())
+    }
 }
 
 impl Store {
